@@ -1,47 +1,51 @@
 #!/usr/bin/env python3
-"""Assembles /verif/seeded/<id>/ from the scratch material of the seeded-change campaign
-(/tmp/seed/<Cxx>/OUT/{patchX.diff,demoX/,meta.json}, /tmp/seed/confirm.txt, /tmp/seed/results.txt)
-and prints the detection table (markdown)."""
-import json, os, re, shutil, sys
+"""tools/mkseeded.py [<scratch root> ...]
+Imports confirmed seeded changes from the scratch roots of the campaign
+(<root>/<Cxx>/OUT/{patchX.diff,demoX/,meta.json}, <root>/confirm.txt, <root>/results.txt)
+into /verif/seeded/<id>/ and prints the detection table (markdown) from every
+/verif/seeded/*/meta.json."""
+import json, os, re, shutil, sys, glob
 ROOT = os.path.dirname(os.path.dirname(os.path.abspath(__file__)))
-SEED = '/tmp/seed'
-confirm = {}
-for l in open(f'{SEED}/confirm.txt'):
-    m = re.match(r'confirm (C\d+)([AB]): (\S+) (.*)', l)
-    if m: confirm[m.group(1)+m.group(2)] = (m.group(3), m.group(4).strip())
-det = {}
-for l in open(f'{SEED}/results.txt'):
-    m = re.match(r'seed (C\d+)([AB]) check (C\d+): exit=(\d+) violations=(\d+)', l)
-    if m: det.setdefault(m.group(1)+m.group(2), {})[m.group(3)] = (int(m.group(4)), int(m.group(5)))  # last run wins
+for SEED in sys.argv[1:]:
+    confirm = {}
+    for l in open(f'{SEED}/confirm.txt'):
+        m = re.match(r'confirm (C\d+)([A-D]): (\S+) (.*)', l)
+        if m: confirm[m.group(1)+m.group(2)] = (m.group(3), m.group(4).strip())
+    det = {}
+    for l in open(f'{SEED}/results.txt'):
+        m = re.match(r'seed (C\d+)([A-D]) check (C\d+): exit=(\d+) violations=(\d+)', l)
+        if m: det.setdefault(m.group(1)+m.group(2), {})[m.group(3)] = (int(m.group(4)), int(m.group(5)))  # last run wins
+    for prop in sorted(os.listdir(SEED)):
+        if not re.fullmatch(r'C\d+', prop) or not os.path.exists(f'{SEED}/{prop}/OUT/meta.json'): continue
+        meta = json.load(open(f'{SEED}/{prop}/OUT/meta.json'))
+        for L in 'ABCD':
+            sid = prop+L
+            if not os.path.exists(f'{SEED}/{prop}/OUT/patch{L}.diff'): continue
+            if confirm.get(sid, ('',))[0] != 'CONFIRMED': continue
+            dst = f'{ROOT}/seeded/{sid}'
+            shutil.rmtree(dst, ignore_errors=True)
+            os.makedirs(dst)
+            shutil.copy(f'{SEED}/{prop}/OUT/patch{L}.diff', f'{dst}/patch.diff')
+            def ign(d, names): return [n for n in names if n in ('go.sum','go.sum.deps','go.sum.scratch','scratch.go.sum','go.sum.txt') or n.endswith('.log') or n in ('thriftgo','trimmer') or n.endswith('.test')]
+            shutil.copytree(f'{SEED}/{prop}/OUT/demo{L}', f'{dst}/demo', ignore=ign)
+            m = meta.get(L, {})
+            caught = sorted(c for c,(e,v) in det.get(sid,{}).items() if e == 1 and v > 0)
+            missed = sorted(c for c,(e,v) in det.get(sid,{}).items() if not (e == 1 and v > 0))
+            out = {
+                "id": sid, "property": prop,
+                "summary": m.get("summary",""), "needs_to_manifest": m.get("needs_to_manifest",""),
+                "files": m.get("files",[]), "demo_cmd": m.get("demo_cmd","") + "   (the go.sum the demo copies is /verif/go.sum)",
+                "observed_with_patch": m.get("observed_with_patch",""), "observed_without_patch": m.get("observed_without_patch",""),
+                "author": "fresh sub-agent given only the property text and its own scratch worktree of /repo",
+                "confirmed_by_me": "tools/seedconfirm.sh %s %s in a separate scratch worktree of /repo's HEAD: %s (patch applies, go build ./... ok, pinned suite passes unedited, demonstration fails with the patch and passes without it)" % (prop, L, confirm[sid][1]),
+                "evaluated_with": "tools/seedeval.sh %s %s <checks> (quick tier, VERIF_SEED=1, patch applied in a scratch worktree reached through VERIF_REPO; equivalent to git -C /repo apply + ./run.sh <check> quick + git -C /repo checkout -- .)" % (prop, L),
+                "caught_by": caught, "not_caught_by": missed,
+            }
+            json.dump(out, open(f'{dst}/meta.json','w'), indent=1)
 rows = []
-for prop in sorted(os.listdir(SEED)):
-    if not re.fullmatch(r'C\d+', prop) or not os.path.exists(f'{SEED}/{prop}/OUT/meta.json'): continue
-    meta = json.load(open(f'{SEED}/{prop}/OUT/meta.json'))
-    for L in 'AB':
-        sid = prop+L
-        if not os.path.exists(f'{SEED}/{prop}/OUT/patch{L}.diff'): continue
-        if confirm.get(sid, ('',))[0] != 'CONFIRMED': continue
-        dst = f'{ROOT}/seeded/{sid}'
-        shutil.rmtree(dst, ignore_errors=True)
-        os.makedirs(dst)
-        shutil.copy(f'{SEED}/{prop}/OUT/patch{L}.diff', f'{dst}/patch.diff')
-        def ign(d, names): return [n for n in names if n in ('go.sum','go.sum.deps','go.sum.scratch','scratch.go.sum','go.sum.txt') or n.endswith('.log')]
-        shutil.copytree(f'{SEED}/{prop}/OUT/demo{L}', f'{dst}/demo', ignore=ign)
-        m = meta.get(L, {})
-        caught = sorted(c for c,(e,v) in det.get(sid,{}).items() if e == 1 and v > 0)
-        missed = sorted(c for c,(e,v) in det.get(sid,{}).items() if not (e == 1 and v > 0))
-        out = {
-            "id": sid, "property": prop,
-            "summary": m.get("summary",""), "needs_to_manifest": m.get("needs_to_manifest",""),
-            "files": m.get("files",[]), "demo_cmd": m.get("demo_cmd","") + "   (the go.sum the demo copies is /verif/go.sum)",
-            "observed_with_patch": m.get("observed_with_patch",""), "observed_without_patch": m.get("observed_without_patch",""),
-            "author": "fresh sub-agent given only the property text and its own scratch worktree of /repo",
-            "confirmed_by_me": "tools/seedconfirm.sh %s %s in a separate scratch worktree of /repo's HEAD: %s (patch applies, go build ./... ok, pinned suite passes unedited, demonstration fails with the patch and passes without it)" % (prop, L, confirm[sid][1]),
-            "evaluated_with": "tools/seedeval.sh %s %s <checks> (quick tier, VERIF_SEED=1, patch applied in a scratch worktree reached through VERIF_REPO; equivalent to git -C /repo apply + ./run.sh <check> quick + git -C /repo checkout -- .)" % (prop, L),
-            "caught_by": caught, "not_caught_by": missed,
-        }
-        json.dump(out, open(f'{dst}/meta.json','w'), indent=1)
-        rows.append((sid, m.get("summary","")[:150].replace('|','/').replace('\n',' '), ', '.join(caught) or '—', ', '.join(missed) or ''))
+for p in sorted(glob.glob(f'{ROOT}/seeded/C*/meta.json')):
+    m = json.load(open(p))
+    rows.append((m['id'], m.get("summary","")[:150].replace('|','/').replace('\n',' '), ', '.join(m['caught_by']) or '—', ', '.join(m['not_caught_by']) or ''))
 print('| seeded change | what | caught by (quick tier) | quick runs that stayed silent |')
 print('|---|---|---|---|')
 for r in rows: print('| %s | %s | %s | %s |' % r)
